@@ -58,3 +58,58 @@ extern "C" void h_hxc_adapter(void)
   if (!got && lba < CYL * SPT && HXC_DROP < 4) vf_witness("read of a dropped sector fails");
   if (got && HXC_DROP == 4 && lba == 3) vf_witness("last sector of an intact surface");
 }
+
+// ---------------------------------------------------------------- C07: header / track-list parsing on an arbitrary file
+namespace {
+// A host file of arbitrary contents and arbitrary (small) size: read(pos, len) returns min(len, size-pos) bytes.
+struct SymFile : public DFS::FileAccess
+{
+  unsigned long size; unsigned reads = 0; unsigned long max_len = 0;
+  std::vector<DFS::byte> read(unsigned long pos, unsigned long len) override
+  {
+    ++reads;
+    if (len > max_len) max_len = len;
+    const unsigned long avail = pos < size ? size - pos : 0;
+    unsigned long give = len < avail ? len : avail;
+    if (give > 24) give = 24;                              // the parsers under test ask for at most 19 bytes at a time
+    std::vector<DFS::byte> v(give);
+    for (unsigned long i = 0; i < 24; ++i) if (i < give) v[i] = vf_nondet_u8();
+    return v;
+  }
+};
+}
+extern "C" void h_hxc_header(void)
+{
+  SymFile f; f.size = vf_nondet_u16();
+  std::string error;
+  std::optional<Header> h;
+  bool threw = false;
+  try { h = read_and_verify_header(&f, error); } catch (std::exception&) { threw = true; }
+  vf_assert(!threw, "header parsing reports problems through its return value");
+  if (h) vf_assert(f.size >= 19 && h->track_list_offset >= 0x13, "a header is only accepted from a file that contains all 19 header bytes");
+  vf_observe(h.has_value());
+  if (h) vf_witness("well-formed header accepted");
+  if (!h && f.size >= 19) vf_witness("complete but invalid header rejected");
+  if (!h && f.size < 19) vf_witness("truncated header rejected");
+}
+
+#ifndef HXC_LIST_MAX
+#define HXC_LIST_MAX 4
+#endif
+extern "C" void h_hxc_track_list(void)
+{
+  SymFile *f = new SymFile; f->size = vf_nondet_u16();
+  vf_assume(f->size <= 0x13 + 11 * HXC_LIST_MAX);          // bound: room for at most HXC_LIST_MAX entries
+  HxcMfmFile *img = static_cast<HxcMfmFile *>(::operator new(sizeof(HxcMfmFile)));   // object state set directly (the constructor would run the whole loader)
+  new (&img->file_) std::unique_ptr<DFS::FileAccess>(f);
+  img->header_.tracks = vf_nondet_u16(); img->header_.sides = vf_nondet_u8();
+  vf_assume(img->header_.tracks >= 1 && img->header_.sides >= 1 && img->header_.sides <= 2);   // what the constructor guarantees
+  img->header_.track_list_offset = 0x13;
+  bool threw = false; size_t n = 0;
+  try { auto m = img->get_track_metadata(); n = m.size(); } catch (std::exception&) { threw = true; }
+  vf_assert(threw || n >= 1, "either the list is complete or the file is rejected");
+  vf_assert(f->reads <= HXC_LIST_MAX + 1, "the loop stops at the end of the file");
+  vf_observe(threw); vf_observe(n);
+  if (!threw && n == 2) vf_witness("two-entry track list accepted");
+  if (threw) vf_witness("truncated track list rejected");
+}
